@@ -85,6 +85,15 @@ template <class TArchive> void SerializeObject(TArchive& archive, External& v) {
   archive << KeyValue("b", v.b);
 }
 
+// a class with its own Serialize() whose base is serialized externally: both routes are viable for it (the internal one must win everywhere)
+struct NamedExternal : External {
+  std::string name;
+  template <class TArchive> void Serialize(TArchive& archive) {
+    archive << BaseObject<External>(*this);
+    archive << KeyValue("name", name);
+  }
+};
+
 // ---- flat scalars: valid in every archive (CSV rows are flat)
 struct Flat : Base {
   bool b = false;
@@ -342,6 +351,8 @@ void RootContainers(const SerializationOptions& opt) {
   Tree t; Round<TArchive>(t, opt);
   Flat f; Round<TArchive>(f, opt);
   External e; Round<TArchive>(e, opt);
+  NamedExternal ne; Round<TArchive>(ne, opt);
+  std::vector<NamedExternal> vne; Round<TArchive>(vne, opt);
 }
 
 void All() {
